@@ -15,6 +15,18 @@ CHECKS = {
  "C19": dict(level="exploration", design="5/C19", technique="complete grid T x Z x boundary-F x Al against a u128 acceptance predicate",
    text="Every T (thorough: all 65535) x every Z x every F adjacent to a limit or to a 2^32 multiple of the symbol count x alignment classes is passed to the real constructor under catch_unwind; accept/refuse must equal the documented predicate evaluated in u128 and accepted values must be echoed.",
    note="F off the boundary sets is not enumerated; limits are those documented on the constructor (errata 5548 and 4.4.1.2)."),
+ "C01": dict(level="exploration", design="5/C01", technique="exhaustive subset-lattice exploration of a real Decoder (clone per branch) over a configuration box, plus deviation-bounded histories for all 954 block sizes; ground-truth oracle",
+   text="Every subset (in canonical and in reverse order) of a per-object packet universe is delivered to a real Decoder for every configuration of a box built around the code's case distinctions (F mod T, Z with KL!=KS, N with TL!=TS, padded short blocks); every answer must be None or the object, Some once all source packets are in. All 477 K' and their min-K partners are driven through erasure/repair histories.",
+   note="One data pattern per configuration (other contents by linearity, C09); Kt<=4 in the subset box."),
+ "C02": dict(level="model_checking", design="5/C02", technique="state-graph exploration (DFS over clones of the real SourceBlockDecoder, one packet per transition) with an independent GF(256) rank oracle evaluated on every node; erasure-bounded",
+   text="The state graph of a real block decoder under all deliveries of subsets of a packet universe (bounded number of erased source symbols, every subset of H+4 near and 4 far repair symbols) is explored on clones; at every node the answer must equal [all source present or rank = L] computed by an independent incremental echelon basis over the RFC constraint matrix, and bytes must be the data. Counts of legitimate failures, fast-path entries and forced fall-backs prove non-vacuity. Also run in the debug-assertions build.",
+   note="Reference tables transcribed from the pinned commit. Canonical arrival order per node (order independence is C08). Large K only with fixed erasure patterns."),
+ "C03": dict(level="exploration", design="5/C03 and section 7", technique="complete enumeration of all (K+h)-subsets, h in {0,1,2}, of fixed finite universes with exact failure counts and a rank oracle",
+   text="Bounded version of a statistical claim: for fixed universes every subset of size K, K+1, K+2 (not containing all source symbols) is decoded by the real decoder; each failure must be a genuine rank deficiency, and the exact aggregate failure fractions must satisfy the property's thresholds (<1%, <0.01%, <0.001%) and be non-increasing.",
+   note="Decides the property only for the listed finite universes (no sampling, no estimate of the distribution over all 2^24 symbols and all K)."),
+ "C08": dict(level="model_checking", design="5/C08", technique="explicit-state exploration to closure of real decoder objects (exact canonical state key confirmed by ==) against an abstract set model; all batchings of pairs/triples; three interfaces in lock-step",
+   text="All decoder states reachable under delivery of any universe packet at any time (any order, multiplicity, continuation after completion, block interleaving) are enumerated to closure; every transition is compared with the abstract answer of the delivered set, the counting invariant and interface agreement are checked in every state, and batched delivery must equal one-by-one delivery in answer and state.",
+   note="Closure is relative to fixed packet universes (K in {1,2,4,5,10,12}, objects with Z in {2,3})."),
  "C04": dict(level="exploration", design="5/C04", technique="complete enumeration over all 477 block sizes / whole repair streams against an independent RFC 6330 reference (tuples, constraint matrix, certificate of intermediate symbols, packets, independent Gaussian solve)",
    text="Five layers, each a complete enumeration of its box against rfcref: tuples, the constraint matrix entry by entry for every K', a certificate check of the encoder's intermediate symbols for all 954 (K', min-K) sizes, every source/near/far repair packet against Enc[K',C,Tuple], whole 2^24-K repair streams, and an independent solve for every K<=300.",
    note="Trusted base: V0-V3, Table 2, degree table transcribed from the pinned commit. T in {1,3} here; other symbol sizes are lifted by C09."),
